@@ -172,23 +172,22 @@ TTML_CLOCK = re.compile(r"^(\d{2,}):(\d{2}):(\d{2})\.(\d{3})$")
 
 
 def parse_ttml(doc):
-    """Strict XML parse (lxml, no recovery, no entity resolution beyond the predefined ones).
+    """Strict XML 1.0 well-formedness parse: expat via xml.etree.ElementTree is the authority (it does not apply
+    the separate xml:id NCName constraint); lxml (no recovery) is run as a cross-check and a disagreement is
+    recorded in LXML_DISAGREEMENTS, not reported as a violation.
     Returns dict(root=element, divs=[dict(lang, ps=[cue])])."""
-    from lxml import etree
+    import xml.etree.ElementTree as ET
 
-    parser = etree.XMLParser(recover=False, resolve_entities=False, no_network=True, remove_blank_text=False)
     try:
-        root = etree.fromstring(doc.encode("utf-8"), parser)
-    except etree.XMLSyntaxError as e:
+        root = ET.fromstring(doc.encode("utf-8"))
+    except ET.ParseError as e:
         raise ParseError(f"ttml: not well-formed: {e}")
-    # cross-check with expat
-    import xml.parsers.expat as expat
-
-    p = expat.ParserCreate()
     try:
-        p.Parse(doc.encode("utf-8"), True)
-    except expat.ExpatError as e:  # pragma: no cover - lxml should have failed too
-        raise ParseError(f"ttml: expat rejects: {e}")
+        from lxml import etree
+
+        etree.fromstring(doc.encode("utf-8"), etree.XMLParser(recover=False, resolve_entities=False, no_network=True))
+    except Exception as e:  # noqa
+        LXML_DISAGREEMENTS.append(str(e)[:120])
     if root.tag != f"{{{TTML_NS}}}tt":
         raise ParseError(f"ttml: root is {root.tag}")
     divs = []
@@ -198,6 +197,9 @@ def parse_ttml(doc):
             ps.append(ttml_p(p_el))
         divs.append({"lang": div.get(f"{{{XML_NS}}}lang"), "ps": ps, "el": div})
     return {"root": root, "divs": divs}
+
+
+LXML_DISAGREEMENTS = []
 
 
 def ttml_time(s):
